@@ -574,7 +574,9 @@ def check(ctx, run):
     run.analysed(sh)
     for argv, i, now, want, after in ((["prog", "-s"], 1, 123456, (1, 123456, 0, 1), 1), (["prog", "-s"], 1, 0, (1, 1, 0, 1), 1), (["prog", "-s77"], 1, 5, (1, 77, 1, 1), 1), (["prog", "-s", "9"], 1, 5, (1, 9, 1, 1), 2),
                                       (["prog", "-s", "x"], 1, 5, (1, 5, 0, 1), 1), (["prog", "-s", "0"], 1, 5, (1, 5, 0, 1), 1), (["prog", "-s0"], 1, 5, (1, 0, 1, 0), 1), (["prog", "-b", "-s"], 2, 5, (1, 5, 0, 1), 2),
-                                      (["prog", "-s", "-v"], 1, 8, (1, 8, 0, 1), 1), (["prog", "-s4294967295"], 1, 5, (1, 4294967295, 1, 1), 1)):
+                                      (["prog", "-s", "-v"], 1, 8, (1, 8, 0, 1), 1), (["prog", "-s4294967295"], 1, 5, (1, 4294967295, 1, 1), 1),
+                                      # the millisecond clock is wider than the seed: a clock whose low 32 bits are zero still gives a usable (non-zero) seed
+                                      (["prog", "-s"], 1, 1 << 32, (1, 1, 0, 1), 1), (["prog", "-s"], 1, 3 << 32, (1, 1, 0, 1), 1), (["prog", "-s"], 1, (1 << 32) + 7, (1, 7, 0, 1), 1)):
         why = ""
         try:
             r, i2, env2, news, log = fold_handler("setShuffle", argv, i, now=now)
